@@ -1,6 +1,7 @@
 package utils
 
 import (
+	"bytes"
 	"fmt"
 	"io"
 )
@@ -136,8 +137,22 @@ func ReadUint32(rd io.Reader) (uint32, error) {
 	return val, nil
 }
 
+// maxPrealloc is the largest buffer that ReadNBytes allocates in advance
+const maxPrealloc = 4096
+
 // ReadNBytes reads n bytes from the reader
 func ReadNBytes(n int, rd io.Reader) ([]byte, error) {
+	// n may be a length taken from untrusted data: for large n grow the buffer as the data arrives,
+	// instead of allocating up to 4 GB in advance
+	if n > maxPrealloc {
+		var bf bytes.Buffer
+		num, err := io.CopyN(&bf, rd, int64(n))
+		if err == io.EOF && num > 0 {
+			err = io.ErrUnexpectedEOF
+		}
+		return bf.Bytes(), err
+	}
+
 	var b []byte = make([]byte, n)
 
 	// a reader may deliver less than asked for without error, so read until all n bytes are there.
